@@ -136,6 +136,36 @@ func vfC01SwarmWalk(t *testing.T, res *vfh.Result, w *vfh.Walk) (err error) {
 				Cfg: map[string]any{"outs": init.Outs, "seed": vfh.Seed()}})
 		}
 		for _, st := range w.Steps {
+			if st.Op.Name() == "warm" {
+				// warm history: an honest dial of P succeeds first; its connection is closed again
+				a0 := ma.StringCast("/ip4/1.2.3.200/tcp/4001")
+				tp.mu.Lock()
+				tp.outs[string(a0.Bytes())], tp.order[string(a0.Bytes())] = "P", 0
+				tp.mu.Unlock()
+				ps.ClearAddrs(P)
+				ps.AddAddr(P, a0, peerstore.PermanentAddrTTL)
+				ctx, cancel := context.WithTimeout(context.Background(), 30*time.Second)
+				c, derr := sw.DialPeer(ctx, P)
+				cancel()
+				if derr != nil || c.RemotePeer() != P {
+					mm("L2:honest-dial-fails", "the honest dial of the warm-up did not return a connection to P", "P", fmt.Sprint(derr))
+				} else {
+					c.Close()
+				}
+				synctest.Wait()
+				ps.ClearAddrs(P)
+				ps.AddAddrs(P, addrs, peerstore.PermanentAddrTTL)
+				tp.mu.Lock()
+				delete(tp.outs, string(a0.Bytes()))
+				tp.conns, tp.tried, tp.asked = nil, 0, nil
+				tp.t0 = time.Now()
+				tp.mu.Unlock()
+				nmu.Lock()
+				connected = nil
+				nmu.Unlock()
+				res.Inc("S.warm", 1)
+				continue
+			}
 			if st.Op.Name() != "dial" {
 				continue
 			}
@@ -216,7 +246,7 @@ func vfC01SwarmWalk(t *testing.T, res *vfh.Result, w *vfh.Walk) (err error) {
 			res.Sample(gotm)
 		}
 		res.Count(1, len(w.Steps))
-		res.Case(fmt.Sprint(init.Outs))
+		res.Case(fmt.Sprint(init.Outs, len(w.Steps)))
 	})
 	return err
 }
